@@ -457,7 +457,9 @@ def main():
                     stock[name] = ['valCmp', op, k]
                 elif left == 'len(v)' and isinstance(k, int) and k >= 0:
                     stock[name] = ['lenCmp', op, k]
-            elif src_of(f) == 'math.isfinite':
+            elif src_of(f) == 'lambda v: isinstance(v, int) or math.isfinite(v)':
+                # the model's `.finite`: every int is finite, floats by `isfinite`.  (The bare `math.isfinite` is NOT that: it
+                # raises OverflowError on ints beyond the float range -- defect D39 -- and is therefore not recognised.)
                 stock[name] = ['finite']
     facts['stockCond'] = stock
 
@@ -635,6 +637,12 @@ def main():
         calls = sorted({src_of(c.func) for c in ast.walk(fn) if isinstance(c, ast.Call) and src_of(c.func).startswith('io.')}) if fn is not None else None
         deleg[m] = calls
     facts['ioMethodDelegates'] = deleg
+    # ... and do nothing else: EVERY call in the method bodies (the string variants wrap the text in a fresh StringIO)
+    allcalls = {}
+    for m in deleg:
+        fn = find_def(cls_t, 'PaneBase.' + m)
+        allcalls[m] = sorted({src_of(c.func) for c in ast.walk(fn) if isinstance(c, ast.Call)}) if fn is not None else None
+    facts['ioMethodCalls'] = allcalls
 
     # ---- F20 the pure-Python fallback of broadcast_shapes (used when numpy cannot be imported) -------------------------
     bs = find_def(utl_t, 'broadcast_shapes')
@@ -768,6 +776,8 @@ def emit_lean(F):
       ', '.join(pipe(n, v) for n, v in (F.get('ioPipelines') or {}).items()) + ']')
     A('def ioMethodDelegates : List (String × List String) := [' + ', '.join(
         f'({lean_str(m)}, [' + ', '.join(map(lean_str, c or [])) + '])' for m, c in (F.get('ioMethodDelegates') or {}).items()) + ']')
+    A('def ioMethodCalls : List (String × List String) := [' + ', '.join(
+        f'({lean_str(m)}, [' + ', '.join(map(lean_str, c or [])) + '])' for m, c in (F.get('ioMethodCalls') or {}).items()) + ']')
     bf = F.get('broadcastFallback') or {}
     A('/-- the pure-Python fallback of `broadcast_shapes`: the per-axis rule, whether the result is reversed back, whether the')
     A('columns are taken right-aligned with fill value 1, and whether numpy is preferred when present -/')
